@@ -12,15 +12,18 @@ Per relayed request three opinions are compared:
 """
 import hashlib
 import hmac
+import os
 import re
+import sys
 import time
 
-import e2e
-import vplib
-from vplib import cb
-from checks.common import verdict
-from checks import relay_common as rc
-from checks.relay_common import CLAIMS, DATE, AUTH, OWNED, SCHEME
+sys.path.insert(0, os.path.normpath(os.path.join(os.path.dirname(os.path.abspath(__file__)), "..")))
+import e2e  # noqa: E402
+import vplib  # noqa: E402
+from vplib import cb  # noqa: E402
+from checks.common import verdict  # noqa: E402
+from checks import relay_common as rc  # noqa: E402
+from checks.relay_common import CLAIMS, DATE, AUTH, OWNED, SCHEME  # noqa: E402
 
 HEX64 = re.compile(r"^[0-9a-f]{64}$")
 
@@ -182,6 +185,40 @@ def by_name(headers):
     for k, v in headers:
         d.setdefault(k, []).append(v)
     return d
+
+
+def minute_leg(ctx, rng, now_t):
+    """THOROUGH ONLY (about 62 s): date freshness across a minute boundary.  Three driver processes, each on a current-thread runtime
+    (E2E_THREADS=0: one thread serves every request), each with ONE keep-alive connection: request, 1.2 s, request, then 59.7 / 60.0 /
+    60.3 s of silence, request.  A date cached under the second-OF-MINUTE (or anything else that survives a whole minute) shows as a
+    date one minute older than the Date header of the proxy's own answer.  Returns the failures."""
+    scs, cs = [], []
+    for k, gap in enumerate((59700, 60000, 60300)):
+        xs = [gen_case(rng, now_t, None, "m%d-%d" % (k, i)) for i in range(3)]
+        for i, c in enumerate(xs):
+            c.update({"scenario": k, "conn": 0, "req": i, "uid": 0, "is_admin": 1, "dest": e2e.IMDS})
+            if i == 2 and rng.random() < 0.5:
+                c["method"], c["target"] = rng.choice(EXEMPT_TARGETS)        # the exempt branch stamps a date too
+        reqs = [e2e.req(case_request(xs[0]), ops_after=[{"op": "sleep_ms", "ms": 1200}]),
+                e2e.req(case_request(xs[1]), ops_after=[{"op": "sleep_ms", "ms": gap}]), e2e.req(case_request(xs[2]), timeout_ms=30000)]
+        scs.append(e2e.scenario("c05-minute-%d" % k, [e2e.conn(reqs, audit=e2e.audit(e2e.IMDS, uid=0), timeout_ms=30000)],
+                                scenario_timeout_ms=200000))
+        cs.append(xs)
+    results = e2e.run_scenarios(ctx, scs, timeout=600, shards=3, env={"E2E_THREADS": "0"})
+    failures = []
+    for k, (r, xs) in enumerate(zip(results, cs)):
+        got = {(m["header"]("x-tag") or [None])[0]: m for m in rc.relayed_requests(r, e2e.IMDS)} if r.get("ok") else {}
+        for c in xs:
+            m = got.get(c["tag"])
+            if m is None:
+                failures.append({"case": {"scenario": e2e.jsonable(scs[k]), "tag": c["tag"]}, "impl": e2e.statuses(r),
+                                 "why": "minute-boundary leg: request %s was not relayed" % c["tag"]})
+                continue
+            why = prop_c05(c, rc.hdr_list(m), now_t, answered_at(results, c))
+            if why:
+                failures.append({"case": {"scenario": e2e.jsonable(scs[k]), "tag": c["tag"], "env": {"E2E_THREADS": "0"}},
+                                 "why": "minute-boundary leg (requests 60 s apart on one thread): " + why, "impl": rc.hdr_list(m)})
+    return failures
 
 
 def case_request(c):
@@ -367,9 +404,29 @@ def run(ctx):
         "of a name) are definitions of the model, tied to the real library by this run only",
         "the signature itself (HMAC-SHA256) is recomputed with Python's hmac over the model's string-to-sign; C04 owns the canonical string",
         "header values with bytes >= 0x80 are not generated here (they make the signing code panic: C13 / finding F7)",
+        "the QUICK tier cannot see a date that goes stale only after a whole minute (e.g. a cache keyed by the second of the minute): "
+        "that needs two requests 60 s apart on one thread and is run in the thorough tier only (minute_leg)",
         "the date check is: RFC 1123 GMT, within 24 h of this machine's clock, not a client-supplied value, within 3 s of the Date "
         "header hyper's server stamps on the proxy's answer to the same request (same clock), and strictly later than the date of the "
         "previous request of the same keep-alive connection when the two answers are >= 2 s apart",
     ]
+    if not ctx.quick:
+        mf = minute_leg(ctx, rng, now_t)
+        ctx.log("minute-boundary leg: 9 requests, %d failing" % len(mf))
+        failures += mf
+        ctx.coverage["input_distribution"]["minute_boundary_leg_requests"] = 9
     verdict(ctx, proofs_ok, detail, disagreements, failures,
             corr_name="Headers.proxy_forward vs ProxyServer::handle_new_http_request/handle_request_with_signature (header lines at the mock host)")
+
+
+if __name__ == "__main__":
+    # python3 tools/checks/c05.py minute   -- only the thorough tier's minute-boundary leg (about 62 s), against VERIF_REPO
+    import random
+    c = vplib.Ctx("C05minute", "thorough", 1)
+    try:
+        fs = minute_leg(c, random.Random(1), time.time())
+        print("minute-boundary leg: %d failing" % len(fs))
+        for f in fs[:3]:
+            print("  ", f["why"])
+    finally:
+        c.cleanup()
